@@ -288,6 +288,15 @@ def linear_check(rep, spec, cfg, diagcfg, files, wd, context_marker=None, meta_l
     """Validate files with the trace spec; on rejection diagnose (DIAG config) the segment from the last
     line starting with context_marker (or just the rejected line) and register a violation."""
     res = validate_linear(spec, cfg, files, wd, timeout=timeout)
+    # which trace-spec actions the implementation traces exercised (an action that never fires was never checked)
+    hist = rep.cov.setdefault("trace_events_by_name", {})
+    ev = re.compile(r'"e":\s*"([A-Za-z0-9_]+)"')
+    for f in files:
+        with open(f) as fh:
+            for line in fh:
+                m = ev.search(line[:400]) or ev.search(line)
+                if m:
+                    hist[m.group(1)] = hist.get(m.group(1), 0) + 1
     for d in res:
         rep.add("states", d["states"])
         rep.add("transitions", max(d["generated"] - 1, 0))
